@@ -73,6 +73,14 @@ Theorem C04_fast_nonMarkov_SIS_rows_well_formed :
       Forall (fun e => xlt (ev_time e) tmax = true /\ In (ev_node e) (gnodes g) /\ (ev_st e = stI \/ ev_st e = stS)) evs.
 Proof. exact (nmsis_C04 g Hnd Hadj). Qed.
 
+(* [nm_run] IS the simulator: with explicit initial nodes the sampler program of
+   fast_nonMarkov_SIS makes no call to the random source and returns nm_run's result *)
+Theorem C04_fast_nonMarkov_SIS_program_is_nm_run :
+  forall dur delays tmax i0 tmin full fuel ds out tr,
+    exec (fast_nonMarkov_SIS g dur delays tmax (Some i0) None tmin full fuel) ds [] = (Ok out, tr) ->
+    nm_run g dur delays tmax tmin full fuel i0 = Ok out /\ tr = [].
+Proof. exact (nmsis_sampler_is_nm_run g). Qed.
+
 (* what the two predicates say, clause by clause *)
 Theorem C04esis_first_time_is_tmin :
   forall tmin tmax l, traj g SIS tmin tmax l -> exists r l', l = r :: l' /\ fst r == tmin.
@@ -154,6 +162,7 @@ Print Assumptions C04_fast_SIS_rows_well_formed.
 Print Assumptions C04esis_fast_SIS_rho_example.
 Print Assumptions C04_fast_SIS_rows_well_formed_any_initial_condition.
 Print Assumptions C04_fast_nonMarkov_SIS_rows_well_formed.
+Print Assumptions C04_fast_nonMarkov_SIS_program_is_nm_run.
 Print Assumptions C04esis_first_time_is_tmin.
 Print Assumptions C04esis_consecutive_rows.
 Print Assumptions C04esis_counts_nonnegative_and_sum_to_N.
